@@ -58,6 +58,18 @@ def apply_edit(root, edit):
         if r.returncode != 0:
             return "reverse patch of %s does not apply: %s" % (edit["reverse_commit"], (r.stdout + r.stderr).decode()[:120])
         return None
+    if "patch" in edit:
+        # a stored seeded change (seeded/<id>/patch.diff) applied to the scratch copy
+        import subprocess
+
+        try:
+            diff = open(edit["patch"], "rb").read()
+        except OSError as e:
+            return "patch file not readable: %s" % e
+        r = subprocess.run(["patch", "-p1", "-s", "-f", "--no-backup-if-mismatch", "-d", str(root)], input=diff, capture_output=True)
+        if r.returncode != 0:
+            return "patch %s does not apply: %s" % (edit["patch"], (r.stdout + r.stderr).decode()[:120])
+        return None
     p = Path(root) / edit["file"]
     if not p.exists():
         return "file %s missing" % edit["file"]
